@@ -455,6 +455,13 @@ def check(run):
         for la in sp:
             lines.append(f'co.xyz {ftok(lo)} {ftok(la)}')
             rt.append(f'co.xyzrt {ftok(lo)} {ftok(la)}')
+    # small integers in one process, neighbours back to back: CPython hashes -1 and -2 alike (and 2**61-1 like 0), so a
+    # value cache keyed by hash() hands one coordinate the other's vector (seeded change C08-n2)
+    ints = [-3.0, -2.0, -1.0, 0.0, 1.0, 2.0, 3.0, 2305843009213693951.0 % 360]
+    for lo in ints:
+        for la in ints[:7]:
+            lines.append(f'co.xyz {ftok(lo)} {ftok(la)}')
+            rt.append(f'co.xyzrt {ftok(lo)} {ftok(la)}')
     for _ in range(run.scale(1500, 40000)):
         lo, la = rand_float(rng), rand_float(rng)
         if is_exception_class(Fraction(lo), Fraction(la)):
